@@ -52,9 +52,9 @@ def lst(xs):
     return ','.join(str(x) for x in xs) if xs else '-'
 
 
-def gen_schema(rng, fmt, maxdims=3, maxvars=4, allow_rec=True):
+def gen_schema(rng, fmt, maxdims=3, maxvars=4, allow_rec=True, maxlen=5):
     ndims = rng.range(1, maxdims)
-    dims = [('d%d' % i, rng.range(1, 5)) for i in range(ndims)]
+    dims = [('d%d' % i, rng.range(1, maxlen)) for i in range(ndims)]
     hasrec = allow_rec and rng.chance(2, 3)
     types = XT_ALL if fmt == 5 else XT_CLASSIC
     vars_ = []
@@ -89,13 +89,13 @@ def shape_of(v, numrecs):
     return [(numrecs if l == 0 else l) for _, l in v.dims]
 
 
-def rand_region(rng, shape, allow_stride=True):
+def rand_region(rng, shape, allow_stride=True, stride_num=1, stride_den=3):
     """random legal (start,count,stride) inside shape (shape entries >= 1)"""
     st, ct, sd = [], [], []
     for n in shape:
         s = rng.range(0, n - 1)
         maxc = n - s
-        k = rng.range(1, 3) if allow_stride and rng.chance(1, 3) else 1
+        k = rng.range(1, 3) if allow_stride and rng.chance(stride_num, stride_den) else 1
         c = rng.range(1, max(1, (maxc + k - 1) // k))
         st.append(s); ct.append(c); sd.append(k)
     return st, ct, sd
@@ -341,7 +341,7 @@ def emit_reads(p, rng, v, numrecs, coll, nprocs, tagset, written=None):
         p.all('barrier')
 
 
-def gen_rw_program(rng, path, nprocs, step0=0, hints='-', fill=None, reopen=True, fmt=None, rd=None, enddef='enddef', dump=True, norewrite=False):
+def gen_rw_program(rng, path, nprocs, step0=0, hints='-', fill=None, reopen=True, fmt=None, rd=None, enddef='enddef', dump=True, norewrite=False, big=False):
     """C01-style program: define, several write phases (collective and independent, every form, split over
     the ranks), sync, read phases (every form), close/reopen, read again.
     `rng` drives the LOGICAL program (schema, regions, values, modes); `rd` (default: rng) drives the
@@ -351,7 +351,7 @@ def gen_rw_program(rng, path, nprocs, step0=0, hints='-', fill=None, reopen=True
     fmt = fmt or rng.choice([1, 2, 5])
     p = Prog(path, nprocs, step0)
     p.all('create %s %d clobber %s' % (path, fmt, hints))
-    dims, hasrec, vars_ = gen_schema(rng, fmt)
+    dims, hasrec, vars_ = gen_schema(rng, fmt, maxlen=(9 if big else 5))
     fill = fill if fill is not None else rng.choice(['none', 'none', 'before', 'after'])
     emit_define(p, dims, hasrec, vars_, rng, fill)
     if rng.chance(1, 3):
@@ -362,7 +362,7 @@ def gen_rw_program(rng, path, nprocs, step0=0, hints='-', fill=None, reopen=True
     written = {}     # var name -> set of index tuples written
     nphase = rng.range(2, 4)
     for ph in range(nphase):
-        coll = rng.chance(1, 2)
+        coll = rng.chance(3, 4) if big else rng.chance(1, 2)
         if not coll:
             p.all('begin_indep')
         phase_cells = {}
@@ -373,7 +373,7 @@ def gen_rw_program(rng, path, nprocs, step0=0, hints='-', fill=None, reopen=True
                 shape = shape_of(v, max(nr, 1))
             else:
                 shape = shape_of(v, numrecs)
-            st, ct, sd = rand_region(rng, shape)
+            st, ct, sd = rand_region(rng, shape, stride_num=(2 if big else 1))
             mt = rng.choice(MT_FOR[v.xt])
             cells = region_cells(st, ct, sd)
             cellvals = dict(zip(cells, vs.take(len(cells))))
